@@ -4,6 +4,7 @@ period earlier; taking the marks back keeps the data; an alteration of the polic
 grace period does *not* (witness).
 -/
 import OG.C14.Shared
+import OG.C14.Lemmas
 
 namespace OG.C14.Sh
 open OG.C14
@@ -19,10 +20,26 @@ theorem shared_grace_iff (t da dl : Int) : sharedInGrace t da dl = true ↔ t < 
   unfold sharedInGrace
   simp
 
-/-- an index group is due when the policy is limited and `end + duration + delay ≤ now`. -/
+/-- an index group is due when the policy is limited and `end + duration + delay ≤ now` — for
+every duration, the largest ones included: the two are added to the end one after the other
+(`EndTime.Add(d).Add(delay)`, /repo 1da982d; `d + delay` in `time.Duration` wrapped for a policy
+within a day of the maximum, e.g. `DURATION 106751d`, and made every ended index group due). -/
 theorem shared_index_iff (t d e dl : Int) : sharedIndexSkip t d e dl = false ↔ d ≠ 0 ∧ e + (d + dl) ≤ t := by
   unfold sharedIndexSkip
   simp
+  omega
+
+/-- the largest whole-day duration (106751 d) with the 24 h delay: an index group that ended a day
+ago is not due (the `time.Duration` sum would be negative: `wrap64` of it is). -/
+example : sharedIndexSkip 0 (106751 * 86400 * 1000000000) (-86400 * 1000000000) delay = true ∧
+    wrap64 (106751 * 86400 * 1000000000 + delay) < 0 := by decide
+
+/-- the three tests agree with their statements over ℤ for every representable (int64) clock
+reading, end, mark time and duration — none of them leaves `time.Time` arithmetic. -/
+theorem shared_tests_int64 (t d e da : Int) (_ht : InI64 t) (_hd : InI64 d) (_he : InI64 e) (_hda : InI64 da) :
+    (sharedMarkCond t d e = true ↔ d ≠ 0 ∧ e + d < t) ∧ (sharedInGrace t da delay = true ↔ t < da + delay) ∧
+    (sharedIndexSkip t d e delay = false ↔ d ≠ 0 ∧ e + (d + delay) ≤ t) :=
+  ⟨shared_mark_iff t d e, shared_grace_iff t da delay, shared_index_iff t d e delay⟩
 
 example : sharedMarkCond 101 50 50 = true ∧ sharedMarkCond 100 50 50 = false ∧ sharedMarkCond 1000 0 50 = false ∧
     sharedInGrace 10 5 24 = true ∧ sharedInGrace 29 5 24 = false := by decide
